@@ -274,6 +274,8 @@ class Item:
                     t.append("k:internal-newtype-map")
                 if rep == "internal" and v.untagged and v.kind == "struct":
                     t.append("k:untagged-struct-variant-in-internal-enum")
+        if self.optional_fields and any(f.ty.kind == "param" for f in self.fields):
+            t.append("k:optional-fields-generic")
         for f in self.all_fields():
             if f.flatten or f.inline:
                 for u in f.ty.walk():
